@@ -1,6 +1,6 @@
 //! Top-level `Orswot<u8,u8>`.
 use crate::model::dotstore;
-use crate::plan::idx;
+use crate::plan::{idx, universe};
 use crate::sim::*;
 use crdts::orswot::{Op, Orswot};
 use crdts::{CmRDT, CvRDT, ResetRemove};
@@ -18,10 +18,11 @@ pub type St = Orswot<u8, u8>;
 /// member choice: small alphabets uniformly; big alphabets half of the time from the three hot members so that
 /// concurrent edits still meet on the same element
 pub fn pick_member(a: u16, e: u16, n: usize) -> u8 {
+    let u = universe(n);
     if n <= 3 || e % 2 == 0 {
-        idx(a, n.min(3)) as u8
+        u[idx(a, n.min(3))]
     } else {
-        idx(a, n) as u8
+        u[idx(a, n)]
     }
 }
 
@@ -53,7 +54,10 @@ pub fn subset(b: u16, n: usize) -> Vec<u8> {
         // big alphabet: 16 independent bits (about half of the members), never empty
         let mask = (b as usize) & ((1usize << n) - 1);
         let mask = if mask == 0 { 1 } else { mask };
-        return (0..n as u8).filter(|i| mask & (1 << i) != 0).collect();
+        let u = universe(n);
+        let mut v: Vec<u8> = (0..n).filter(|i| mask & (1 << i) != 0).map(|i| u[i]).collect();
+        v.sort();
+        return v;
     }
     let mask = 1 + idx(b, (1usize << n) - 1);
     (0..n as u8).filter(|i| mask & (1 << i) != 0).collect()
@@ -138,11 +142,11 @@ impl<const M: usize> Subject for SOrswotN<M> {
         Some((op, sem, call))
     }
     fn observe(s: &St) -> Obs {
-        observe_set(s, M)
+        observe_set(s, &universe(M))
     }
     fn predict(metas: &[OpMeta], know: Bits) -> Option<Obs> {
         let ds = dotstore::Store::build(metas, know);
-        Some(dotstore::predict_set(&ds, &[], M, &ds.clock()))
+        Some(dotstore::predict_set(&ds, &[], &universe(M), &ds.clock()))
     }
     fn validate_op(s: &St, op: &Self::Op) -> Result<(), String> {
         s.validate_op(op).map_err(|e| render_dot_range(&e))
@@ -151,7 +155,7 @@ impl<const M: usize> Subject for SOrswotN<M> {
         a.validate_merge(b).map_err(|e| render_set_merge_err(&e))
     }
     fn ctx_probes(s: &St, actors: &[u8]) -> Vec<CtxProbe> {
-        set_ctx_probes(s, actors, M)
+        set_ctx_probes(s, actors, &universe(M))
     }
     const RESET: bool = true;
     fn reset_remove(s: &mut St, c: &Clock) {
@@ -160,7 +164,7 @@ impl<const M: usize> Subject for SOrswotN<M> {
 }
 
 /// Observation of a set through every read entry point.
-pub fn observe_set(s: &St, universe: usize) -> Obs {
+pub fn observe_set(s: &St, universe: &[u8]) -> Obs {
     let mut o = Obs::new();
     let mut api: Vec<String> = Vec::new();
     let r = s.read();
@@ -190,7 +194,7 @@ pub fn observe_set(s: &St, universe: usize) -> Obs {
     if it_members != members {
         api.push(format!("iter() members {it_members:?} != read() members {members:?}"));
     }
-    let mut all: Vec<u8> = (0..universe as u8).collect();
+    let mut all: Vec<u8> = universe.to_vec();
     for m in &members {
         if !all.contains(m) {
             all.push(*m);
@@ -218,7 +222,7 @@ pub fn observe_set(s: &St, universe: usize) -> Obs {
     o
 }
 
-pub fn set_ctx_probes(s: &St, actors: &[u8], universe: usize) -> Vec<CtxProbe> {
+pub fn set_ctx_probes(s: &St, actors: &[u8], universe: &[u8]) -> Vec<CtxProbe> {
     let mut v = Vec::new();
     let derive = |add: &crdts::VClock<u8>| -> Vec<(u8, DotT, Clock)> {
         actors
@@ -253,7 +257,7 @@ pub fn set_ctx_probes(s: &St, actors: &[u8], universe: usize) -> Vec<CtxProbe> {
             .collect();
         v.push(CtxProbe { entry: "read_ctx".into(), elem: None, add_clock: vclock_to(&r.add_clock), rm_clock: vclock_to(&r.rm_clock), derived: d, derived_rm: vclock_to(&s.read_ctx().derive_rm_ctx().clock) });
     }
-    for m in 0..universe as u8 {
+    for m in universe.iter().copied() {
         let r = s.contains(&m);
         let d: Vec<(u8, DotT, Clock)> = actors
             .iter()
